@@ -216,7 +216,7 @@ def run(ctx):
 SYNC = 'src/myth_sync_func.h'
 MUTANTS = [
     {'name': 'join counter state word narrowed to int (seed3 C07/m3)', 'expect': 'C07.3',
-     'edits': [('include/myth/myth.h', "    volatile long state;", "    volatile int state;")]},
+     'edits': [('include/myth/myth.h', "    long state_mask;\t\t/* (1 << n_threads_bits) - 1 */\n    volatile long state;", "    long state_mask;\t\t/* (1 << n_threads_bits) - 1 */\n    volatile int state;")]},
     {'name': 'native myth_join_counter_dec forwards to wait', 'expect': 'C07.6',
      'edits': [('src/myth_if_native.c', "  return myth_join_counter_dec_body(jc);", "  return myth_join_counter_wait_body(jc);")]},
     {'name': 'wake chain links behind a NULL tail (sweep M0634)', 'expect': 'C07.5',
